@@ -1,8 +1,10 @@
 ---------------------------- MODULE ScmpExchange ----------------------------
 (* (c) Two end hosts and a router exchanging SCMP messages and datagrams.        *)
 (* Every message may be lost, delivered (and answered per the reply decision of  *)
-(* Scmp.tla) or hit a forwarding problem at the router (which may emit an SCMP   *)
-(* error per RouterAnswers).  Only MAXORIG messages are originated spontaneously; *)
+(* Scmp.tla), hit a forwarding problem at the router (which may emit an SCMP     *)
+(* error per RouterAnswers) or, when it carries a router alert, be served by the *)
+(* router itself (echo / traceroute request -> reply per RouterEcho).            *)
+(* Only MAXORIG messages are originated spontaneously;                           *)
 (* everything else is caused by a received message.                              *)
 (*   NoErrorLoop : no message is ever caused by an SCMP error (any type < 128)   *)
 (*   NoReplyToMalformed : no end host answers a malformed SCMP message           *)
@@ -10,12 +12,14 @@
 (* ANSWER_ERRORS = TRUE is the broken variant (errors are answered with errors). *)
 EXTENDS Scmp, TLC, Json
 
-CONSTANTS MAXORIG, ANSWER_ERRORS, GEN
+CONSTANTS MAXORIG, ANSWER_ERRORS, GEN,
+          Kinds          \* message kinds hosts originate: subset of AllKinds
 
 Hosts == {"A", "B"}
-Kinds == {"req", "rep", "err", "uerr", "uinfo", "bad", "dgram"}
+AllKinds == {"req", "rep", "treq", "trep", "err", "uerr", "uinfo", "bad", "dgram"}
+ASSUME Kinds \subseteq AllKinds
 \* abstract kinds -> descriptors of Scmp.tla (one representative type per class)
-KType(k) == CASE k = "req" -> 128 [] k = "rep" -> 129 [] k = "err" -> 4 [] k = "uerr" -> 100
+KType(k) == CASE k = "req" -> 128 [] k = "rep" -> 129 [] k = "treq" -> 130 [] k = "trep" -> 131 [] k = "err" -> 4 [] k = "uerr" -> 100
               [] k = "uinfo" -> 200 [] k = "bad" -> 128 [] k = "dgram" -> 0
 KDesc(k) == [t |-> KType(k), complete |-> TRUE, ck |-> (k # "bad"), parsed |-> TRUE, rev |-> TRUE, addr |-> TRUE]
 KODesc(k) == [scmp |-> (k # "dgram"), t |-> KType(k), has4 |-> TRUE, parsed |-> TRUE]
@@ -64,24 +68,41 @@ RouterFail(m) == /\ m \in net
                     ELSE /\ net' = net \ {m} /\ log' = Settle(m, "failed")
                  /\ UNCHANGED orig
 
+\* m carries a router alert for the router on its path: the router is the receiver (handle_scmp)
+RouterServes(k) == IF k = "dgram" THEN 0 ELSE RouterEcho(KDesc(k))
+RouterServe(m) == /\ m \in net /\ log[m].k # "dgram" /\ log[m].by = "host" /\ log[m].cause = 0
+                  /\ IF RouterServes(log[m].k) = 1
+                     THEN /\ log' = WithNew(Settle(m, "served"), IF KType(log[m].k) = 128 THEN "rep" ELSE "trep", "R", log[m].src, m, log[m].gen + 1, "router")
+                          /\ net' = (net \ {m}) \cup {NextId}
+                     ELSE /\ net' = net \ {m} /\ log' = Settle(m, "served")
+                  /\ UNCHANGED orig
+
 LoseAny == \E m \in net : Lose(m)
+RouterServeAny == \E m \in net : RouterServe(m)
 DeliverAny == \E m \in net : Deliver(m)
 RouterFailAny == \E m \in net : RouterFail(m)
 Next == \/ \E h \in Hosts, k \in Kinds : Originate(h, k)
         \/ LoseAny
         \/ DeliverAny
         \/ RouterFailAny
+        \/ RouterServeAny
 
-Progress == \E m \in net : Lose(m) \/ Deliver(m) \/ RouterFail(m)
+Progress == \E m \in net : Lose(m) \/ Deliver(m) \/ RouterFail(m) \/ RouterServe(m)
 Spec == Init /\ [][Next]_vars /\ WF_vars(Progress)
 
 (* ------------------------------- P-layer ------------------------------------ *)
 Caused == {i \in DOMAIN log : log[i].cause # 0}
 NoErrorLoop == \A i \in Caused : ~IsErrKind(log[log[i].cause].k)
-NoReplyToMalformed == \A i \in Caused : (log[log[i].cause].k = "bad" => log[i].by = "router")
+\* (a transit router's error about a malformed packet it cannot forward is not a reply of a receiver)
+NoReplyToMalformed == \A i \in Caused : (log[log[i].cause].k = "bad" => (log[i].by = "router" /\ log[log[i].cause].fate = "failed"))
 EchoFaithful == \A i \in Caused : (log[i].by = "host" =>
                    /\ log[log[i].cause].k = "req" /\ log[i].k = "rep"
                    /\ log[i].dst = log[log[i].cause].src /\ log[i].src = log[log[i].cause].dst)
+\* the router's own service answers requests only, with the matching reply type, to the requester
+RouterServeFaithful == \A i \in Caused : ((log[i].by = "router" /\ log[log[i].cause].fate = "served") =>
+                   /\ \/ (KType(log[log[i].cause].k) = 128 /\ log[i].k = "rep")
+                      \/ (KType(log[log[i].cause].k) = 130 /\ log[i].k = "trep")
+                   /\ log[i].dst = log[log[i].cause].src)
 AtMostOneAnswer == \A i, j \in Caused : (log[i].cause = log[j].cause => i = j)
 \* request -> reply -> router error about the reply is the longest chain
 ChainBounded == \A i \in DOMAIN log : log[i].gen <= 2
